@@ -136,8 +136,24 @@ func (s snap) render(w *world) string {
 }
 
 // schemaOp runs a schema operation on node n and checks what the statement promises about existing documents
+// everKnown: the fields of every version node n knows
+func (w *world) everKnown(n int) map[string]bool {
+	out := map[string]bool{}
+	cols, err := w.nodes[n].DB.GetCollections(w.ctx, client.CollectionFetchOptions{IncludeInactive: immutable.Some(true)})
+	must(err)
+	for _, c := range cols {
+		if c.Version().CollectionID == w.colID {
+			for _, f := range c.Definition().GetFields() {
+				out[f.Name] = true
+			}
+		}
+	}
+	return out
+}
+
 func (w *world) schemaOp(n int, what string, f func() error) string {
 	before := w.snapshot(n)
+	knownBefore := w.everKnown(n)
 	if err := f(); err != nil {
 		return "error:" + strings.ReplaceAll(err.Error(), " ", "_")
 	}
@@ -151,6 +167,17 @@ func (w *world) schemaOp(n int, what string, f func() error) string {
 		for f, v := range bf {
 			if av, both := af[f]; both && av != v {
 				w.out.Oracle(w.out.Lines, fmt.Sprintf("[schema-op-changes-values] case %d: after %s field %s of document %s reads %s, before %s", w.caseID, what, f, l, av, v))
+			}
+		}
+	}
+	// a field no version of this node had before reads null for every existing document
+	for _, fl := range after.fields {
+		if knownBefore[fl] {
+			continue
+		}
+		for l, af := range after.docs {
+			if af[fl] != "null" {
+				w.out.Oracle(w.out.Lines, fmt.Sprintf("[added-field-not-null] case %d: after %s the new field %s of document %s (written before the field existed) reads %s", w.caseID, what, fl, l, af[fl]))
 			}
 		}
 	}
